@@ -10,6 +10,12 @@ package scen
 // real). Requests are released one per step; cancellations caused by the
 // heuristics are observed through the ordinary "cancel>" actions.
 //
+// Silent responders (see c08.go): this client is built with a per-operation
+// time-out drawn by the scenario (c08World.ownTimeout); the simulated sender
+// never gives up on a silent responder before that time-out plus 30 s have
+// passed, so the client itself has to abandon the request (rule
+// not-closed-after-timeout).
+//
 // Granularity: the handler of one answer runs atomically within a step (up to
 // the hand-over to a consumer that is not reading, "lazy" mode). A variant
 // with scheduler-owned yield points at the found-set mutex was tried and
@@ -51,7 +57,7 @@ func init() {
 		s.Finish()
 	},
 		Real: real, Stub: stub,
-		Faults: append(append([]string{}, c08Faults...), c08LazyFaults...),
+		Faults: append(append(append([]string{}, c08Faults...), c08LazyFaults...), "probe_silent_cut_by_timeout"),
 	})
 }
 
@@ -112,6 +118,7 @@ func c08BuildFullRT(s *sim.Sim) *c08World {
 		panic("c08: the initial crawl did not run")
 	}
 	w.snds = []*simnet.Sender{snd}
+	w.ownTimeout = perOp
 	fullrt.VerifSetShuffle(frt, c08Shuffle(c08DrawShuffleSeed(s, "shuffle-remote")))
 	records.VerifSetShuffle(frt.ProviderManager, c08Shuffle(c08DrawShuffleSeed(s, "shuffle-local")))
 	w.storeLocal(frt.ProviderManager, local)
@@ -123,7 +130,7 @@ func c08BuildFullRT(s *sim.Sim) *c08World {
 		_ = frt.Close()
 		_ = w.host.Close()
 	}
-	s.Summary["cfg"] = fmt.Sprintf("client=fullrt N=%d K=%d crawled=%d table=%d waitFrac=%.1f perOp=%v count=%d pool=%d local=%d faults=%d cancelAt=%d",
-		c.N, k, len(crawled), w.tablePeers, waitFrac, perOp, c.Count, len(w.pool), len(w.local), c.FaultLevel, c.CancelAt)
+	s.Summary["cfg"] = fmt.Sprintf("client=fullrt N=%d K=%d crawled=%d table=%d waitFrac=%.1f perOp=%v count=%d pool=%d local=%d faults=%d silent=%d qevents=%v cancelAt=%d lazy=%v",
+		c.N, k, len(crawled), w.tablePeers, waitFrac, perOp, c.Count, len(w.pool), len(w.local), c.FaultLevel, c.Silent, c.QEvents, c.CancelAt, w.lazy)
 	return w
 }
